@@ -229,7 +229,7 @@ class Ctx:
             raise Broken("empty trace " + trace)
         lines = open(trace).read().splitlines()
         nhist = sum(1 for x in lines if x.startswith('{"e":"Reset"') or '"e":"CInit"' in x[:4000] and x.startswith('{"colls"')) or 1
-        r = self.tlc(module, cfg, env={"TRACE": trace}, workers=1, timeout=timeout)
+        r = self.tlc(module, cfg, env={"TRACE": trace, "PROP": self.prop}, workers=1, timeout=timeout)
         if r["rejected"] is not None or not r["ok"]:
             at = r["rejected"]
             raise Broken("trace %s not consumed (stuck at event %s): %s\n%s" %
